@@ -226,11 +226,14 @@ def gen_dmm(rng: random.Random, physical: bool = False) -> dict:
     }
 
 
-def gen_register(rng: random.Random, n_min=1, n_max=5, dim3_p=0.2) -> dict:
+def gen_register(rng: random.Random, n_min=1, n_max=5, dim3_p=0.2, int_ids_p=0.0) -> dict:
     n = rng.randint(n_min, n_max)
     dim = 3 if rng.random() < dim3_p else 2
     pool = ["q0", "q1", "q2", "q3", "q4", "a", "b", "zz", "k9"]
     ids = rng.sample(pool, n)
+    if int_ids_p and rng.random() < int_ids_p:
+        # integer qubit ids 0..n-1, what Register.square(n) etc. produce by default
+        ids = list(range(n))
     coords = []
     # atoms on a jittered grid, spacing >= 5um so every device accepts them
     cells = rng.sample(range(16), n)
@@ -314,7 +317,7 @@ def gen_device(
 
 
 def gen_world(rng: random.Random, **kw) -> dict:
-    reg_kw = {k: kw.pop(k) for k in ("n_min", "n_max", "dim3_p") if k in kw}
+    reg_kw = {k: kw.pop(k) for k in ("n_min", "n_max", "dim3_p", "int_ids_p") if k in kw}
     dev = gen_device(rng, **kw)
     reg = gen_register(rng, **reg_kw)
     if dev["kind"] == "builtin" and dev["name"] != "MockDevice":
